@@ -49,3 +49,12 @@ Definition parse_name (name : string) : string * Z :=
 
 Definition parent_of (name : string) : string := fst (parse_name name).
 Definition ordinal_of (name : string) : Z := snd (parse_name name).
+
+(* correspondence record for the `names` harness command *)
+Record names_case := { nc_pod : string; nc_set : string; nc_ord : Z; nc_claim : string;
+                       nc_parent : string; nc_ordinal : Z; nc_pod_name : string; nc_claim_name : string }.
+Definition names_check (c : names_case) : bool :=
+  let '(p, o) := parse_name (nc_pod c) in
+  String.eqb p (nc_parent c) && (o =? nc_ordinal c)
+  && String.eqb (pod_name (nc_set c) (nc_ord c)) (nc_pod_name c)
+  && String.eqb (claim_name (nc_claim c) (nc_set c) (nc_ord c)) (nc_claim_name c).
